@@ -19,6 +19,8 @@ def sh(cmd, cwd=None, timeout=3600):
 
 def main():
     sd = os.path.join(ROOT, "seeded")
+    if sys.argv[1:] == ["--table"]:
+        write_table(sd); return 0
     names = sys.argv[1:] or sorted(n for n in os.listdir(sd) if re.match(r"C\d\d-\d+$", n))
     rc, out = sh("git status --short -- src", REPO)
     if out.strip():
@@ -57,12 +59,29 @@ def main():
                         for c, v in verdicts.items() if v["violation_lines"])
         print(name, "caught by", caught or "NOTHING", how, flush=True)
         rows.append((name, ", ".join(caught) if caught else "**not caught**", how, meta.get("summary", "").replace("|", "/")[:110]))
-    with open(os.path.join(sd, "RESULTS.md"), "w") as f:
-        f.write("# Seeded changes against /repo %s (quick tier of the named checks)\n\n" % head)
-        f.write("| seeded change | caught by | replay | what the change does |\n|---|---|---|---|\n")
-        for r in rows:
-            f.write("| %s | %s | %s | %s |\n" % r)
+    write_table(sd)
     return 0
+
+
+def write_table(sd):
+    """RESULTS.md from the last recorded re-run of EVERY seeded change (meta.json verification.rerun)"""
+    rows, heads = [], set()
+    for name in sorted(n for n in os.listdir(sd) if re.match(r"C\d\d-\d+$", n)):
+        meta = json.load(open(os.path.join(sd, name, "meta.json")))
+        rr = meta.get("verification", {}).get("rerun")
+        if not rr:
+            rows.append((name, "not re-run", "", "", meta.get("summary", "")[:110])); continue
+        heads.add(rr["repo_head"])
+        v = rr["checks"]
+        caught = [c for c, x in v.items() if x["verdict"] == "VIOLATION"]
+        how = "; ".join(os.path.basename(x["violation_lines"][0].split("replay=")[1].split()[0]) + ("" if x["concrete_replay"] else " (no-failing-input-found)")
+                        for c, x in v.items() if x["violation_lines"])
+        rows.append((name, ", ".join(caught) if caught else "**not caught**", how, rr["repo_head"], meta.get("summary", "").replace("|", "/")[:110]))
+    with open(os.path.join(sd, "RESULTS.md"), "w") as f:
+        f.write("# Seeded changes: last re-run of each (quick tier of the named checks; /repo heads: %s)\n\n" % ", ".join(sorted(heads)))
+        f.write("| seeded change | caught by | replay | /repo | what the change does |\n|---|---|---|---|---|\n")
+        for r in rows:
+            f.write("| %s | %s | %s | %s | %s |\n" % r)
 
 
 if __name__ == "__main__":
